@@ -1,4 +1,4 @@
-import NfcVerif.Model.AdvT34
+import NfcVerif.Model.AdvOps
 open NfcVerif NfcVerif.Adv
 
 def MOD : Nat := 1000000007
@@ -21,56 +21,49 @@ def showNdef : Option Ndef → String
     let o := if d.octets.length ≤ 40 then toHex d.octets else s!"#{cmdHash [d.octets]}"
     s!"len={d.length} cap={d.cap} r={if d.readable then 1 else 0} w={if d.writeable then 1 else 0} oct={o}"
 
+def parseOps (s : String) : Option (List Op) :=
+  s.toList.foldr (fun c acc =>
+    match acc with
+    | none => none
+    | some l =>
+      if c = 'n' then some (Op.ndef :: l) else if c = 'h' then some (Op.changed :: l)
+      else if c = 'p' then some (Op.present :: l) else none) (some [])
+
+/-- results oldest first, one word per operation -/
+def showRes : List Op → List Res → List String
+  | op :: ops, r :: rs =>
+    (match op, r with
+     | .ndef, .ndef d => "n=" ++ showNdef d
+     | .changed, .ndef d => "h=" ++ showNdef d
+     | .changed, .skip => "h=-"
+     | .present, .present b => if b then "p=1" else "p=0"
+     | _, _ => "?") :: showRes ops rs
+  | _, _ => []
+
 structure Out where
   canon : String
   w : W
   fuelOut : Bool := false
 
-def excOut (e : Exc) (w : W) : Out := ⟨"exc " ++ e.name, w, e == .outOfFuel⟩
-
-/-- `tag.ndef`, then `ndef.has_changed` when an NDEF object exists -/
-def twice {σ} (cls : String) (read1 : Unit → Py (Option Ndef) × σ) (read2 : σ → Py (Option Ndef) × σ)
-    (wOf : σ → W) : Out :=
-  match read1 () with
-  | (.error e, s) => excOut e (wOf s)
-  | (.ok none, s) => ⟨s!"tag {cls} first=none second=-", wOf s, false⟩
-  | (.ok (some d), s) =>
-    match read2 s with
-    | (.error e, s') => excOut e (wOf s')
-    | (.ok r, s') => ⟨s!"tag {cls} first={showNdef (some d)} second={showNdef r}", wOf s', false⟩
-
-def runCase (t : Tag) (g : Target) (maxSend maxRecv F : Nat) (sticky : Bool) : Out :=
-  match activate t maxSend maxRecv g W.init with
-  | (.error e, w) => excOut e w
+def runCase (t : Tag) (g : Target) (maxSend maxRecv F : Nat) (sticky : Bool) (fx : IsoDepR.Fix) (ops : List Op) : Out :=
+  match session t g maxSend maxRecv fx F sticky ops with
+  | (.error e, w) => ⟨"exc " ++ e.name, w, e == .outOfFuel⟩
   | (.ok none, w) => ⟨"none", w, false⟩
-  | (.ok (some (.t1 cls uid)), w) =>
-    twice cls (fun _ => readNdef1 t uid w) (fun s => readNdef1 t uid s.w) (·.w)
-  | (.ok (some (.t2 cls)), w) =>
-    twice cls (fun _ => readNdef2 t w 0 true) (fun s => readNdef2 t s.w s.sector s.alive) (·.w)
-  | (.ok (some (.t3 cls idm pmm sys)), w) =>
-    twice cls (fun _ => readNdef3 t { w := w, idm := idm, pmm := pmm, sys := sys }) (fun s => readNdef3 t s) (·.w)
-  | (.ok (some (.t4 cls pcd)), w) =>
-    let X := isoX t F sticky
-    let s0 : S4 := { world := toWorld w, pcd := pcd, errno := none }
-    match readNdef4 X none s0 with
-    | (s, .error e) => excOut e (ofWorld s.world)
-    | (s, .ok none) => ⟨s!"tag {cls} first=none second=-", ofWorld s.world, false⟩
-    | (s, .ok (some (d, i))) =>
-      match readNdef4 X (some i) s with
-      | (s', .error e) => excOut e (ofWorld s'.world)
-      | (s', .ok r) => ⟨s!"tag {cls} first={showNdef (some d)} second={showNdef (r.map (·.1))}", ofWorld s'.world, false⟩
+  | (.ok (some (cls, rs)), w) => ⟨" ".intercalate (s!"tag {cls}" :: showRes ops rs), w, false⟩
 
 def handle (line : String) : String :=
   match line.splitOn " " with
-  | ["run", tech, sens, sel, sdd, rid, sensb, sensf, ms, mr, budget, sticky, script] =>
+  | ["run", tech, sens, sel, sdd, rid, sensb, sensf, ms, mr, budget, flags, ops, script] =>
     match tech.toNat?, parseHex sens, parseHex sel, parseHex sdd, parseHex rid, parseHex sensb, parseHex sensf,
-          ms.toNat?, mr.toNat?, budget.toNat?, parseScript script with
-    | some tech, some sens, some sel, some sdd, some rid, some sensb, some sensf, some ms, some mr, some budget, some sc =>
+          ms.toNat?, mr.toNat?, budget.toNat?, parseScript script, parseOps ops with
+    | some tech, some sens, some sel, some sdd, some rid, some sensb, some sensf, some ms, some mr, some budget, some sc,
+      some ops =>
       let g : Target := ⟨tech, sens, sel, sdd, rid, sensb, sensf⟩
-      let o := runCase (scriptTag sc) g ms mr (budget + 1000) (sticky == "1")
+      let has (c : Char) : Bool := flags.toList.contains c
+      let o := runCase (scriptTag sc) g ms mr (budget + 1000) (has 's') ⟨has 'w', has 'a', has 'c'⟩ ops
       if o.fuelOut ∨ o.w.n > budget then "loop"
       else s!"{o.canon} n={o.w.n} h={cmdHash o.w.log.reverse}"
-    | _, _, _, _, _, _, _, _, _, _, _ => "bad-op"
+    | _, _, _, _, _, _, _, _, _, _, _, _ => "bad-op"
   | _ => "bad-op"
 
 def main : IO Unit := runDriver handle
